@@ -534,17 +534,21 @@ def dtype (cc : Classes) (s : Str) : Option HType :=
 
 /-! ## Well-formed types: what Python can construct -/
 
+/-- a Python `str`: every element is a code point -/
+def ValidStr (s : Str) : Prop := ∀ c ∈ s, c < 1114112
+
 mutual
-/-- field names of a struct are distinct (`tstruct(**field_types)`) -/
+/-- names are Python strings and the field names of a struct are distinct (`tstruct(**field_types)`) -/
 def WF : HType → Prop
   | .array t | .ndarray t _ | .set t | .stream t | .interval t => WF t
   | .dict k v => WF k ∧ WF v
+  | .locus rg => ValidStr rg
   | .struct fs => (fs.map Prod.fst).Nodup ∧ WFFields fs
   | .tuple ts => WFTypes ts
   | _ => True
 def WFFields : List (Str × HType) → Prop
   | [] => True
-  | (_, t) :: r => WF t ∧ WFFields r
+  | (n, t) :: r => ValidStr n ∧ WF t ∧ WFFields r
 def WFTypes : List HType → Prop
   | [] => True
   | t :: r => WF t ∧ WFTypes r
